@@ -116,7 +116,9 @@ def ignore_guard(ses, rep):
                             if "{closure" in n_ and f.params and cm.group(1) in f.params[0][1]:
                                 clos = f
     if clos is None:
-        raise Inconclusive("sort_requires: ignore guard (`any` over the group) not found")
+        # the test is no longer an `any` over ALL members of the group
+        r, m = ses.obligation("ignore-guard/tests-every-member", [], z3.BoolVal(True), "the ignore / range test quantifies over every member of the group")
+        return [("ignore-guard/tests-every-member", "sort_requires does not test every member of a group for `stylua: ignore` / the range", "guard", {"which": "non-first"})]
     env = ex.fresh_lazy("closure", "env")
     ctx = ex.fresh_lazy("context::Context", "ctx")
     # the closure captures `ctx: &&Context`
@@ -261,6 +263,10 @@ BATTERY = [
     ("statement-splits", R("b") + R("a") + "print(1)\n" + R("d") + R("c"), ["--sort-requires"], R("a") + R("b") + "print(1)\n" + R("c") + R("d")),
     ("kinds-do-not-merge", R("b") + 'local A = game:GetService("A")\n' + R("a"), ["--sort-requires"], R("b") + 'local A = game:GetService("A")\n' + R("a")),
     ("ignored-member", R("c") + "-- stylua: ignore\n" + R("b") + R("a"), ["--sort-requires"], R("c") + "-- stylua: ignore\n" + R("b") + R("a")),
+    ("ignored-second-member", R("c") + '--[[ stylua: ignore ]] local   b   =   require("b")\n' + R("a"), ["--sort-requires"],
+     R("c") + '--[[ stylua: ignore ]] local   b   =   require("b")\n' + R("a")),
+    ("ignored-last-member", R("c") + R("b") + '--[[ stylua: ignore ]] local   a   =   require("a")\n', ["--sort-requires"],
+     R("c") + R("b") + '--[[ stylua: ignore ]] local   a   =   require("a")\n'),
     ("wrapped-require", 'local c = require(\n\t"c"\n)\n' + R("b") + R("a"), ["--sort-requires"], R("a") + R("b") + R("c")),
     ("out-of-range-group", R("b") + R("a") + "local v   =   1\n", ["--sort-requires", "--range-start", "50"], R("b") + R("a") + "local v = 1\n"),
     ("partly-in-range-group", R("b") + R("a") + "local v   =   1\n", ["--sort-requires", "--range-start", "30"], R("b") + R("a") + "local v = 1\n"),
@@ -275,7 +281,7 @@ BATTERY = [
 TRIVIA = ("comment-on-moved-member", R("b") + "--[[c]] " + R("a"), ["--sort-requires"], "--[[c]]")
 KIND2SCEN = {"grouping": ["blank-line-splits", "statement-splits", "kinds-do-not-merge", "wrapped-require", "sorted", "blank-line-with-spaces", "blank-line-crlf"],
              "members": ["semicolon-comments", "sorted", "stable-duplicates"],
-             "guard": ["ignored-member", "out-of-range-group", "partly-in-range-group"], "sort": ["sorted", "stable-duplicates", "blank-line-splits"],
+             "guard": ["ignored-member", "ignored-second-member", "ignored-last-member", "out-of-range-group", "partly-in-range-group"], "sort": ["sorted", "stable-duplicates", "blank-line-splits"],
              "enabled": ["off", "sorted"]}
 
 
@@ -303,7 +309,13 @@ def run(ses, rep):
     rep.assumptions += ["statements are visited in source order with non-decreasing lines (parser)", "sort_by_key is a stable sort (std)",
                         "get_expression_kind is covered by the repository's unit tests and by replay only"]
     rep.outside += ["the sort implementation; update_positions; get_expression_kind's string tests"]
-    flagged = grouping(ses, rep) + ignore_guard(ses, rep) + rebuild_step(ses, rep) + enabled_only(ses, rep)
+    flagged = grouping(ses, rep) + ignore_guard(ses, rep)
+    try:
+        flagged += rebuild_step(ses, rep)
+    except Inconclusive:
+        if not any(f[0] == "ignore-guard/tests-every-member" for f in flagged):
+            raise           # (when the guard is not an `any` any more, that is what gets reported, not the unrecognised loop)
+    flagged += enabled_only(ses, rep)
     rep.samples.append({"flagged": [(f[0], f[1]) for f in flagged][:6]})
     for oid, what, kind, info in flagged:
         if kind == "trivia":
